@@ -308,6 +308,7 @@ var c03Gens = []c03Gen{
 
 func checkC03(c *Ctx) {
 	r := c.R
+	r.Explain = "Decides C03 on a finite grid of configurations by abstract evaluation of the generators' own source (nothing is executed): the walker interprets each emitting generator's unit root for one service with one RPC, with annotations.GetMethodHTTPConfig / GetServiceBasePath / GetQueryParams and the RPC, service and package names replaced by constants of the grid point, folds the string manipulation (strings.*, fmt.Sprintf, path.*, slicing, byte loops) with the Go library's own functions and reads the published verb and path back from the string literals of the reconstructed output; for OpenAPI extractMethodHTTPInfo is evaluated to its struct value. R03a: the five path templates are one string at every grid point (bases: absent, with/without leading and trailing slash, multi-segment; paths: 0-3 variables, variable first/last, trailing slash, no leading slash, root; config absent / verb unset / path unset; thorough adds adjacent variables, double slash, suffix forms, all verbs at every point). R03b: the five verbs, config absent and verb unset give the same verb everywhere, in the case the consumer matches on; a marker verb shows that the configured verb (not a constant) reaches every route. R03c: template variables and query fields come only from internal/annotations; each generator mentions each variable; the TS server's segment index is the variable's index in the agreed template; query fields are sent by both clients for the same verbs and read by both servers there; body verbs are {POST,PUT,PATCH} in clients, TS server and OpenAPI. R03d: processService calls processMethod for every method unconditionally; processMethod fetches the path item of info.path, replaces it only when absent, assigns by info.httpMethod through an identity slot switch, and stores under info.path. Not decided: RPC/service names outside the evaluated shapes, characters needing escaping in templates, net/http ServeMux pattern semantics. Known finding: without a method path the generators default differently."
 	r.Rule("R03a", "path template: for every configuration of the grid (base path × method path × config presence) the path literal reconstructed from each of the four emitting generators and the path evaluated from the OpenAPI generator are one and the same string", 40)
 	r.Rule("R03b", "verb: for every verb and for the defaulting cases (config absent, verb unset) all five generators publish the same verb, in the exact case their consumer needs (upper-case in code, lower-case key in OpenAPI)", 20)
 	r.Rule("R03c", "placement: all generators take the path-variable list and the query-field list from the shared accessors, announce every path variable, extract it from the segment where the agreed template has it, and put query fields on the wire for the same verbs", 20)
